@@ -212,6 +212,8 @@ CORPUS = [
     {"grammar": "Model: xs+=A[eolterm] 'end';\nA[ws=' ']: 'a';\n", "opts": {}, "inputs": ["a a\nend", "a a end", "a\na end"], "tag": "corpus-eolterm-rule-ws"},
     {"grammar": "Model: xs+=A[eolterm] 'end';\nA: 'a';\n", "opts": {}, "inputs": ["a a\nend", "a a end", "a\na end"], "tag": "corpus-eolterm"},
     {"grammar": "Model: a=A 'x';\nA: &'x';\n", "opts": {}, "inputs": ["x", "y"], "tag": "corpus-predicate-root"},
+    {"grammar": "Model: 'm' items+=Item;\nItem: name=ID;\nComment: /\\/\\*.*?\\*\\//;\n", "opts": {}, "inputs": ["m a /*c*/ /*d*/b", "m/**/a", "m a /*"], "tag": "corpus-comment-regex"},
+    {"grammar": "Model: 'm' items+=Item;\nItem: name=ID;\nComment: /\\/\\*.*?\\*\\//;\n", "opts": {"skipws": False}, "inputs": ["ma/*c*/b", "mab"], "tag": "corpus-comment-noskipws"},
     {"grammar": "Model: objs+=O; O: 'o' name=ID ('{' kids+=O '}')?;\nComment: /\\/\\/.*?$/;\n", "opts": {},
      "inputs": ["o a { o b // c\n o c {o d} }\n\n  o e", "// x\no a{}", "o a {\r\n o b }"], "tag": "corpus-nested-comment"},
 ]
